@@ -108,6 +108,7 @@ type vfResult struct {
 	LeakedBubble bool           `json:"leaked_bubble,omitempty"`
 	SyncCalls  [][2]int         `json:"sync_calls,omitempty"` // driver calls (cache, primary) per fault-free sync, for enumeration
 	Variant    string           `json:"variant,omitempty"`
+	Conc       *concOutcome     `json:"conc,omitempty"`
 }
 
 // ---- world ------------------------------------------------------------------
@@ -153,6 +154,7 @@ type vfWorld struct {
 	stopOnViolation bool
 	loginAttempts   []time.Time
 
+	conc          *concOutcome
 	raw           map[string]*sql.DB
 	offlineDigest string
 	cacheSynced   map[string]bool
